@@ -63,6 +63,13 @@ Theorem C07_uncompressed_fallback_max_refuted :
 Proof. exact uncompressed_fallback_in_window_max_refuted. Qed.
 Print Assumptions C07_uncompressed_fallback_max_refuted.
 
+(* Before the repair "write() of a slice of 2 GiB or more panics in fill_window" the number of bytes
+   fill_window copied for a 2^31-byte slice was the whole slice length, whatever room was left. *)
+Theorem C07_fill_window_huge_slice_old_refuted :
+  fill_len_old 655906 2147483648 = 2147483648 /\ 655906 < fill_len_old 655906 2147483648.
+Proof. exact fill_window_huge_slice_old_refuted. Qed.
+Print Assumptions C07_fill_window_huge_slice_old_refuted.
+
 (* The .lzma clause of C18 (declared size): what every call returns is the function [l1_results]
    of the slice lengths and the declared size; a successful finish means declared = accepted =
    coded. *)
